@@ -5,6 +5,7 @@ Case forms
   {"t":"dict", "nv":n, "nuni_v":k, "rows":[[key,[vals..]],..], "cls":0..5, "prior":[[a,b,cls],..], "prior_uni":[idx..], "itkind":0..3}
   {"t":"matrix", "n":n, "cells":[[sel..]..], "cls":.., "prior":[..], "bad":0..4, "badpos":int, "dupside": bool}
 """
+from eglib import h
 import collections
 
 from hypothesis import strategies as st
@@ -112,7 +113,7 @@ def _setup(nv, prior, prior_uni, universe_last=True):
 
     for v in vs:     # warm the neighbor caches (no effect with caching off)
         for d in (0, 1, 2):
-            helpers.neighbors(v, d, helpers.LNK_UNKNOWN_NEIGHBOR)
+            h.neighbors(v, d, helpers.LNK_UNKNOWN_NEIGHBOR)
     return vs, outside, pu
 
 
@@ -171,7 +172,7 @@ def _check_built(u, vs, before, order, pairs, cls, known_universes):
     pi = {id(x): k for k, x in enumerate(uniq)}
     for i, v in enumerate(vs):
         for d in (0, 1, 2):
-            got = [pi.get(id(x), "?") for x in helpers.neighbors(v, d, helpers.LNK_UNKNOWN_NEIGHBOR)]
+            got = [pi.get(id(x), "?") for x in h.neighbors(v, d, helpers.LNK_UNKNOWN_NEIGHBOR)]
             exp = _rn(G_all, pi[id(v)], d, 1, None)
             require(got == exp, "readback-neighbors", f"vertex {i} direction {d}: plain neighbors() gives {got}, the links say {exp}")
         # ... and with the DEFAULT arguments (FORWARD, LNK_UNKNOWN_ERROR), which is what most callers use
@@ -182,7 +183,7 @@ def _check_built(u, vs, before, order, pairs, cls, known_universes):
         except _RNI:
             exp = "NIE"
         try:
-            got = [pi.get(id(x), "?") for x in helpers.neighbors(v)]
+            got = [pi.get(id(x), "?") for x in h.neighbors(v)]
         except NotImplementedError:
             got = "NIE"
         require(got == exp, "readback-neighbors", f"vertex {i}: neighbors(v) with default arguments gives {got}, the links say {exp}")
@@ -190,14 +191,14 @@ def _check_built(u, vs, before, order, pairs, cls, known_universes):
     newids = {id(l) for l in new}
     kind = C.KIND[want]
     for i, v in enumerate(vs):
-        nb = [vi.get(id(x)) for x in helpers.neighbors(v, helpers.DIR_SENS_FORWARD, helpers.LNK_UNKNOWN_NEIGHBOR, lambda e, o: id(e) in newids)]
+        nb = [vi.get(id(x)) for x in h.neighbors(v, helpers.DIR_SENS_FORWARD, helpers.LNK_UNKNOWN_NEIGHBOR, lambda e, o: id(e) in newids)]
         if kind == "D":
             expn = [b for a, b in pairs if a == i]
         else:
             expn = [(b if a == i else a) for a, b in pairs if i in (a, b)]
         require(nb == expn, "readback-neighbors", f"vertex {i}: neighbors {nb}, adjacency says {expn}")
         for j, w in enumerate(vs):
-            n = len(helpers.find_links(v, w, True, helpers.LNK_UNKNOWN_NEIGHBOR, lambda e: id(e) in newids))
+            n = len(h.find_links(v, w, True, helpers.LNK_UNKNOWN_NEIGHBOR, lambda e: id(e) in newids))
             if kind == "D":
                 m = sum(1 for p in pairs if p == (i, j))
             else:
